@@ -44,7 +44,7 @@ def lineOfJson (j : Json) : Except String Line := do
     | "blank" => pure Kind.blank
     | "spaces" => pure Kind.spaces
     | "comment" => pure Kind.comment
-    | "id" => pure Kind.id
+    | "id" => pure (if (getBool j "unsafe").toOption.getD false then Kind.idUnsafe else Kind.id)
     | "event" => pure (Kind.event ((getText j "v").toOption.getD []))   -- the harness omits an empty event name
     | "data" => pure (Kind.data (← payloadOfJson j))
     | "other" => pure Kind.other
@@ -101,27 +101,55 @@ def haltJson : Option Halt → Json
   | some .spin => Json.str "spin"
   | some .dead => Json.str "dead"
 
+/-- how an Initialize attempt ends whose answer the transport handed over as `o` (`initOk`: the result decodes as an
+    InitializeResult — oracle bit) -/
+def initClass (initOk : Bool) : Option CallOut → String
+  | none => "pending"
+  | some (.ok _) => if initOk then "ok" else "error"
+  | some _ => "error"
+
+def initOkOf (j : Json) : Bool := (getBool j "initOk").toOption.getD false
+
+/-- handshake histories: `inits` (the classes of the attempts answered with bad content) and `init` are added to the outcome -/
+def withInits (j : Json) (inits : List String) (out : List (String × Json)) : Json :=
+  if (arrOf j "badInits").isEmpty then Json.mkObj out
+  else Json.mkObj (out ++ [("inits", Json.arr (inits.map Json.str).toArray), ("init", Json.mkObj [("ok", Json.str "init")])])
+
+/-- Streamable: every initialize answer is a JSON body -/
+def httpInits (j : Json) : Except String (List String) :=
+  (arrOf j "badInits").toList.mapM (fun b => do
+    let body ← payloadOfJson b
+    pure (initClass (initOkOf b) (some (jsonBody 200 body))))
+
+def nextJson (ok : Bool) : Json :=
+  if ok then Json.mkObj [("ok", Json.str "next")] else Json.mkObj [("failed", Json.str "header")]
+
 def okResult (tag : String) : MJson := .obj [(t!"tools", .arr []), (t!"nextCursor", .str (ofString tag))]
 
 def handle (op : String) (j : Json) : Except String Json := do
   match op with
   | "json" =>
     let body ← payloadOfJson (← j.getObjVal? "body")
-    pure (Json.mkObj [("call", callJson (some (jsonBody (← getNat j "status") body)))])
+    pure (withInits j (← httpInits j) [("call", callJson (some (jsonBody (← getNat j "status") body)))])
   | "post" =>
     let H ← textsOf j "handlers"
     let ls ← linesOf j "lines"
     let e ← match ← getStr j "end" with
       | "eof" => pure End.eof | "stall" => pure End.stall | s => throw s!"end {s}"
     let req ← getNat j "req"
-    let st := postRun req H {} ls
-    pure (Json.mkObj [("call", callJson (some (postFinish st e))), ("notes", notesJson st.notes)])
+    let (st, ids) := postIdRun req H ({}, {}) ls
+    pure (withInits j (← httpInits j) [("call", callJson (some (postFinish st e))), ("notes", notesJson st.notes),
+      ("next", nextJson (laterCallOk Mcp.Gen.rdIdChecked ids))])
   | "get" =>
     let H ← textsOf j "handlers"
     let ls ← linesOf j "lines"
-    let st := getRun F H {} ls
-    let st' := getRun F H st (getEvent (wfNote t!"verif/n" [(t!"k", .int 999999)]) 64)
-    pure (Json.mkObj [("notes", notesJson st'.notes), ("answers", answersJson st'.answers), ("halt", haltJson st'.halt)])
+    let p := getIdRun F H ({}, {}) ls
+    let sid ← match j.getObjVal? "sentinelId" with
+      | .ok l => do pure [← lineOfJson l]
+      | .error _ => pure []
+    let (st', ids) := getIdRun F H p (sid ++ getEvent (wfNote t!"verif/n" [(t!"k", .int 999999)]) 64)
+    pure (withInits j (← httpInits j) [("notes", notesJson st'.notes), ("answers", answersJson st'.answers), ("halt", haltJson st'.halt),
+      ("next", nextJson (laterCallOk Mcp.Gen.rdIdChecked ids))])
   | "legacy" =>
     let pre ← linesOf j "pre"
     let ids ← natsOf j "ids"
@@ -133,22 +161,60 @@ def handle (op : String) (j : Json) : Except String Json := do
     else if !st1.latch then
       pure (Json.mkObj [("init", Json.str "noEndpoint")])
     else
-      let st2 := legRun F st1 (legEvent (wfResult 1 (okResult "init")) 64)
+      -- handshake histories: attempt i (request id i+1) is answered by the i-th bad answer, the next one properly
+      let bad := (arrOf j "badInits").toList
+      let (st1, inits, _) ← bad.foldlM (fun (acc : LegSt × List String × Nat) b => do
+        let body ← payloadOfJson b
+        let (st, cls, i) := acc
+        let st' := legRun F { st with tbl := Table.init [i + 1] } (legEventP body 64)
+        pure (st', cls ++ [initClass (initOkOf b) (st'.tbl.got (i + 1))], i + 1)) (st1, [], 0)
+      let k := bad.length
+      let st1 := { st1 with tbl := Table.init [k + 1] }
+      let st2 := legRun F st1 (legEvent (wfResult (k + 1) (okResult "init")) 64)
       let st3 := legRun F { st2 with tbl := Table.init ids } script
       let st4 := legRun F { st3 with tbl := Table.init [next] } (legEvent (wfResult next (okResult "next")) 64)
-      pure (Json.mkObj [("init", callJson (st2.tbl.got 1)), ("calls", Json.arr (ids.map (fun k => callJson (st3.tbl.got k))).toArray),
-        ("answers", answersJson st4.answers), ("halt", haltJson st4.halt), ("next", callJson (st4.tbl.got next))])
+      let out := [("init", callJson (st2.tbl.got (k + 1))), ("calls", Json.arr (ids.map (fun k => callJson (st3.tbl.got k))).toArray),
+        ("answers", answersJson st4.answers), ("halt", haltJson st4.halt), ("next", callJson (st4.tbl.got next))]
+      pure (if bad.isEmpty then Json.mkObj out else Json.mkObj (out ++ [("inits", Json.arr (inits.map Json.str).toArray)]))
   | "stdio" =>
     let H ← textsOf j "handlers"
     let ids ← natsOf j "ids"
     let fs ← (arrOf j "frames").toList.mapM frameOfJson
     let next ← getNat j "next"
-    let st := stdioRun F H { tbl := Table.init ids } fs
+    let bad := (arrOf j "badInits").toList
+    let (st0, inits, _) ← bad.foldlM (fun (acc : StdioSt × List String × Nat) b => do
+      let body ← payloadOfJson b
+      let (st, cls, i) := acc
+      let fr := match body.json with | some v => Frame.value v | none => Frame.garbage
+      let st' := stdioRun F H { st with tbl := Table.init [i + 1] } [fr]
+      pure (st', cls ++ [initClass (initOkOf b) (st'.tbl.got (i + 1))], i + 1)) (({ tbl := Table.init [] } : StdioSt), [], 0)
+    let st := stdioRun F H { st0 with tbl := Table.init ids } fs
     let st' := stdioRun F H { st with tbl := Table.init [next] } [.value (wfResult next (okResult "next"))]
-    pure (Json.mkObj [("calls", Json.arr (ids.map (fun k => callJson (st.tbl.got k))).toArray),
+    pure (withInits j inits [("calls", Json.arr (ids.map (fun k => callJson (st.tbl.got k))).toArray),
       ("notes", notesJson st'.notes), ("answers", answersJson st'.answers), ("halt", haltJson st'.halt),
       ("spin", Json.bool st'.spinning), ("next", callJson (st'.tbl.got next)),
       ("spinAfterClose", Json.bool (stdioClose st').spinning)])
+  | "decode" =>
+    -- well-formed answers to typed calls: the transport hands the result to the decoder (which returns a value or an error)
+    let docs := (arrOf j "docs").toList
+    let via ← getStr j "via"
+    let next ← getNat j "next"
+    let cls (o : Option CallOut) : Json := match o with
+      | some (.ok _) => Json.str "returned"
+      | some .rpcError => Json.str "returned"
+      | o => callJson o
+    if via == "json" then
+      let outs ← docs.mapM (fun d => do pure (cls (some (jsonBody 200 (← payloadOfJson d)))))
+      pure (Json.mkObj [("decoded", Json.arr outs.toArray), ("next", nextJson true)])
+    else
+      let (st, outs, _) ← docs.foldlM (fun (acc : StdioSt × List Json × Nat) d => do
+        let body ← payloadOfJson d
+        let (st, os, i) := acc
+        let fr := match body.json with | some v => Frame.value v | none => Frame.garbage
+        let st' := stdioRun F [] { st with tbl := Table.init [i + 2] } [fr]
+        pure (st', os ++ [cls (st'.tbl.got (i + 2))], i + 1)) (({ tbl := Table.init [] } : StdioSt), [], 0)
+      let st' := stdioRun F [] { st with tbl := Table.init [next] } [.value (wfResult next (okResult "next"))]
+      pure (Json.mkObj [("decoded", Json.arr outs.toArray), ("next", callJson (st'.tbl.got next))])
   | _ => throw s!"readers: unknown op {op}"
 
 end Mcp.Drv.Readers
